@@ -180,6 +180,22 @@ func dbScan(db *dkv.DB) (m map[string]string, errText string) {
 	return m, errText
 }
 
+func dbGet(db *dkv.DB, k string) (v string, errText string) {
+	defer func() {
+		if r := recover(); r != nil {
+			errText = fmt.Sprint("panic: ", r)
+		}
+	}()
+	e, err := db.Get([]byte(k))
+	if err != nil {
+		return "", err.Error()
+	}
+	if e.IsDelete() {
+		return "", "deleted"
+	}
+	return string(e.Value()), ""
+}
+
 func runDB(in *mbt.Input, res *mbt.Result) {
 	runs, steps := in.CfgInt("Runs", 40), in.CfgInt("Steps", 30)
 	var events []any
@@ -229,11 +245,24 @@ func runDB(in *mbt.Input, res *mbt.Result) {
 						bad = fmt.Sprintf("key %q was never written", k)
 					}
 				}
+				// point lookups take another path through the levels than scans (first hit per level, no merge)
+				for _, k := range ks {
+					if bad != "" {
+						break
+					}
+					e, err := dbGet(db, k)
+					switch {
+					case err != "":
+						bad = fmt.Sprintf("Get(%q) fails: %s (last write %q)", k, err, oracle[k])
+					case e != oracle[k]:
+						bad = fmt.Sprintf("Get(%q) returns %q, the last write is %q (ScanPrefix shows the last write)", k, e, oracle[k])
+					}
+				}
 			}
 			if bad != "" && !dead {
 				dead = true
 				res.Violations = append(res.Violations, mbt.Violation{Property: prop, Behaviour: ri, Step: si,
-					What:     fmt.Sprintf("real dkv.DB %s: DB.ScanPrefix no longer shows the writes so far: %s (tables per level %v)", when, bad, tableCounts(db)),
+					What:     fmt.Sprintf("real dkv.DB %s: the database no longer shows the writes so far: %s (tables per level %v)", when, bad, tableCounts(db)),
 					Observed: map[string]any{"scan": got, "schedule": log}, Expected: oracle})
 			}
 		}
